@@ -256,6 +256,11 @@ def execute(ctx, env, case, resp=None):
     ctx.count(f"digits-size-{len(str(size))}")
 
 
+def inflight_summary(iface, app, req):
+    from vf import inflight
+    return inflight.solo(iface, app, req)
+
+
 def sizes_for(chunk):
     base = {0, 1, chunk - 1, chunk, chunk + 1, 2 * chunk, 3 * chunk + 1, 9, 10, 11, 99, 100, 101, 999, 1000, 1001, 9999,
             10000, 10001}
@@ -395,6 +400,25 @@ def run(ctx):
                     if status != 206 or body != data[s_:e_] or cr != f"bytes {s_}-{e_ - 1}/{size}":
                         ctx.violation("concurrent|single-range-response-wrong", case, f"{status} cr={cr!r} body {len(body)} B, expected [{s_},{e_})")
         ctx.case(("concurrent", size, chunk, r1, r2))
+    # ---- two response objects built from ONE headers argument (a MutableHeaders instance, a dict): each describes its own file,
+    #      and the caller's object is left as it was
+    from baize.datastructures import MutableHeaders
+    for i in range(ctx.scale(12, 400)):
+        (p1, d1), (p2, d2) = env.file(rng.choice([10, 100]), ".bin"), env.file(rng.choice([1000, 70_000]), ".txt")
+        for iface, ns in (("wsgi", wsgi), ("asgi", asgi)):
+            for kind in ("MutableHeaders", "dict"):
+                shared = MutableHeaders({"x-extra": "1"}) if kind == "MutableHeaders" else {"x-extra": "1"}
+                r1, r2 = ns.FileResponse(p1, headers=shared), ns.FileResponse(p2, headers=shared)
+                own = ns.FileResponse(p1, headers={"x-extra": "1"})
+                req = drivers.Req()
+                res = [inflight_summary(iface, o, req) for o in (r1, own)]
+                ctx.mon("shared-headers-argument")
+                case = {"iface": iface, "headers_argument": kind, "files": [os.path.basename(p1), os.path.basename(p2)]}
+                if res[0] != res[1]:
+                    ctx.violation("constructor-argument-aliased|response-describes-another-file", case, f"{str(res[0])[:200]} vs {str(res[1])[:200]}")
+                if dict(shared.items()) != {"x-extra": "1"}:
+                    ctx.violation("constructor-argument-aliased|callers-object-modified", case, repr(dict(shared.items()))[:200])
+        ctx.case(("shared-headers", i))
     # ---- ... and on both interfaces through vf/inflight.py: 2-3 range requests in flight together on one response object, the first
     #      two of them also as two server threads with a placed thread switch (single ranges only: a multipart boundary is random)
     from vf import inflight
